@@ -135,7 +135,7 @@ def oracle(lines, impl, model, meta):
     if req:
         import os
         binp = os.path.join(C.HARNESS, "target", "release", "harness")
-        ans = C.run_resilient(binp, req, env={"HARNESS_STACK_KIB": "256", "VERIF_STALL": "300"}, timeout=1500)
+        ans = C.run_parallel(binp, req, jobs=12, min_lines=0, env={"HARNESS_STACK_KIB": "256", "VERIF_STALL": "300"}, timeout=1500)
         for idxs in C.split_cases(req):
             ev, pg = ans[idxs[3]], ans[idxs[4]]
             if ev is None or not ev.startswith("OK"):
